@@ -315,8 +315,8 @@ def run_tuple(desc, ctx, out):
                 parameters_bounds=np.array([stress_floats(rng, p) - 1e3, stress_floats(rng, p) + 1e3]), parameters_precision=np.abs(stress_floats(rng, p)) + 1e-9,
                 real_data=stress_floats(rng, shape[1] * shape[2]).reshape(shape[1], shape[2]), ensemble_size=shape[0], N=shape[1], D=shape[2],
                 convergence_precision=None if rng.random() < 0.5 else int(rng.integers(0, 6)), verbose=bool(rng.random() < 0.5),
-                saving_file=None if rng.random() < 0.3 else "some/folder", initial_random_seed=None if rng.random() < 0.2 else int(rng.integers(2**31)),
-                random_generator_state=g.bit_generator.state, model_name="m", scheduler=["scheduler-stand-in", int(rng.integers(100))],
+                saving_file=None if rng.random() < 0.3 else str(rng.choice(["some/folder", "20240927", "0012", "3.10", "1e5", " run 7 ", "résultats/série-3", "-0", "nan", "True", "0x1F", "a'b\"c"])), initial_random_seed=None if rng.random() < 0.2 else int(rng.integers(2**31)),
+                random_generator_state=g.bit_generator.state, model_name=str(rng.choice(["m", "model", "SIR_w_breaks", "1", "007", "2.50", "modèle"])), scheduler=["scheduler-stand-in", int(rng.integers(100))],
                 loss_function={"loss-stand-in": float(rng.random())}, current_batch_index=int(rng.integers(0, 50)), n_sampled_params=rows,
                 n_jobs=int(rng.integers(1, 5)), params_samp=params, losses_samp=losses, series_samp=series,
                 batch_num_samp=np.sort(rng.integers(0, 6, size=rows)), method_samp=rng.integers(0, 4, size=rows),
